@@ -144,6 +144,16 @@ class SignEnv:
                 return NONNEG if last != "exp" else POS
             if last in ("dot", "vdot", "inner") and len(e.args) == 2 and norm_src(e.args[0]) == norm_src(e.args[1]):
                 return NONNEG
+            if last in ("mean", "sum", "average", "amax", "amin", "nanmean", "cumsum", "max", "min") and len(e.args) == 1:
+                # order-preserving reductions of one array keep a definite sign
+                a = self.sign(e.args[0], depth - 1)
+                if a in (NONNEG, NONPOS, ZERO):
+                    return a
+                if a == POS:
+                    return POS if last not in ("sum",) else NONNEG
+                if a == NEG:
+                    return NEG if last not in ("sum",) else NONPOS
+                return TOP
             if last in ("maximum", "max") and len(e.args) == 2:
                 a, b = self.sign(e.args[0], depth - 1), self.sign(e.args[1], depth - 1)
                 if is_nonneg(a) or is_nonneg(b):
